@@ -73,7 +73,7 @@ def dw_op_jmp(obj, offset):
 @ispec("16>[ {15} offset(8) ]", mnemonic="DW_OP_pick")
 @ispec("16>[ {94} offset(8) ]", mnemonic="DW_OP_deref_size")
 def dw_op_1(obj, offset):
-    obj.operands = [offset]
+    obj.operands = [env.cst(offset, 8)]
     obj.type = type_data_processing
 
 
